@@ -500,6 +500,28 @@ def family_idle(rng, count, contracts=False):
     return out
 
 
+def family_terminating(rng, count):
+    """Small charts that reach a final configuration (a top-level final state) after one or two events: what an
+    interpreter does once it is final (time, meta-events, queues) is behaviour too."""
+    out = []
+    while len(out) < count:
+        kind = ['compound', 'basic', 'final'] + (['basic'] if rng.random() < 0.5 else [])
+        parent = [0, 1, 1] + ([1] if len(kind) == 4 else [])
+        c = new_chart(kind, parent, [2] + [0] * (len(kind) - 1), [0] * len(kind))
+        tr = [mk_trans(2, 3, 1, 0, 'none', 0, desc(incx=rng.choice([0, 1])))]
+        if len(kind) == 4:
+            e = rng.choice([1, 2])
+            tr += [mk_trans(2, 4, 2), mk_trans(4, 3, e), mk_trans(4, 2, 3 - e)]
+        if rng.random() < 0.5:
+            tr.append(mk_trans(1, 0, 2, 0, 'none', 0, desc(incx=1)))        # an internal transition of the root
+        c['trans'] = [t for i, t in enumerate(tr) if t not in tr[:i]]
+        c['entry'][2] = desc(incx=1)
+        c['events'] = [1, 2]
+        if wf(c):
+            out.append(c)
+    return out
+
+
 def family_hist(rng, count, nmin=6, nmax=9, extra=6):
     """Larger charts with history states below orthogonal/compound ancestors; each transition has its
     own event.  Transitions into every history state from outside, out of its ancestors, and random ones."""
